@@ -867,6 +867,18 @@ func c19Keys(p *Prog, r *Report) {
 					good = true
 				}
 			}
+			// ... or the constant prefix of the key builder itself: []byte(keyPrefix)
+			if kc, ok := ast.Unparen(c.Args[0]).(*ast.CallExpr); ok && len(kc.Args) == 1 {
+				if tv, isT := info.Types[kc.Fun]; isT && tv.IsType() {
+					if s, k := constStr(info, kc.Args[0]); k {
+						if fk := p.Func(kFileKey); fk != nil {
+							if pref, ok := constPrefix(fk); ok && pref == s {
+								good = true
+							}
+						}
+					}
+				}
+			}
 		}
 		return true
 	})
